@@ -5,11 +5,13 @@ from ECAgent.Core import Model, System, SystemManager
 
 
 class LogModel(Model):
-    __slots__ = ['log']
+    __slots__ = ['log', 'when']
 
     def __init__(self):
-        super().__init__()
+        from vf.stubs import NULL_LOGGER
+        super().__init__(logger=NULL_LOGGER)
         self.log = []
+        self.when = []
 
 
 class S(System):
@@ -21,8 +23,10 @@ class S(System):
 
     def execute(self):
         self.model.log.append(self)          # the object, not its id: a removed system and its replacement may share an id
-        for act in self.acts:
-            act()
+        self.model.when.append(self.model.systems.timestep)
+        if self.model.systems.timestep == 0:
+            for act in self.acts:
+                act()
 
 
 def _queue(m, ps):
@@ -78,8 +82,26 @@ def midstep(p0: int, p1: int, p2: int, p3: int, actor: int, target: int, pn: int
         a2, t2 = hx.pick(ss, actor2), hx.pick(ss, target2)
         a2.acts.append(mk(kinds[1], a2, t2, pn2, "2"))
         plan.append((a2, kinds[1], t2))
-    m.execute()
-    log = list(m.log)
+    if hx.P.get('other_model'):
+        # every system of THIS model also steps ANOTHER model from inside its execute() (nested simulations); the other
+        # model's scheduler must not disturb this one's bookkeeping
+        other = LogModel()
+        other.systems.add_system(S("o0", other, 0))
+        other.systems.add_system(S("o1", other, 1))
+
+        def step_other():
+            other.systems.timestep = 5            # (so that the other model's systems do not act)
+            other.execute()
+        for s_ in ss:
+            s_.acts.append(step_other)
+    multi = hx.P.get('multi', False)
+    if multi:
+        m.execute(2)                              # both timesteps requested with ONE call
+    else:
+        m.execute()
+    cut = len([t for t in m.when if t == 0])
+    log = list(m.log[:cut])
+    log_second = list(m.log[cut:])
     names = lambda xs: ["%s%s" % (x.id, "" if x in before else "'") for x in xs]
     # (1) nothing runs twice
     for i in range(len(log)):
@@ -109,15 +131,15 @@ def midstep(p0: int, p1: int, p2: int, p3: int, actor: int, target: int, pn: int
     if added:
         hx.reach('added')
     # (4) systems added mid-timestep run at most once (covered by (1)); the next timestep is a plain ordered run
-    for s in ss:
-        s.acts = []
-    del m.log[:]
-    m.execute()
-    if not hx.same_seq(m.log, m.systems.execution_queue):
-        return hx.end(hx.fail("next timestep is not a plain run of the queue", log=names(m.log)))
+    if not multi:
+        m.execute()
+        log_second = list(m.log[cut:])
+    if not hx.same_seq(log_second, m.systems.execution_queue):
+        return hx.end(hx.fail("next timestep is not a plain run of the queue", log=names(log_second),
+                              queue=names(m.systems.execution_queue), one_call=multi))
     want = [s for s in before if s not in removed] + list(added)
-    if len(m.log) != len(want) or not all(any(x is y for y in m.log) for x in want):
-        return hx.end(hx.fail("next timestep ran a different set of systems", log=names(m.log), exp=names(want)))
+    if len(log_second) != len(want) or not all(any(x is y for y in log_second) for x in want):
+        return hx.end(hx.fail("next timestep ran a different set of systems", log=names(log_second), exp=names(want)))
     q = m.systems.execution_queue
     for i in range(len(q) - 1):
         if q[i].priority < q[i + 1].priority:
@@ -139,6 +161,10 @@ def obligations(tier):
     parts = [{"n": n, "kinds": [k]} for n in ns for k in ("self", "remove", "add", "replace")]
     two = [(a, b) for a in ("self", "remove", "add", "replace") for b in ("self", "remove", "add", "replace")]
     parts += [{"n": n, "kinds": [a, b]} for n in ((2,) if tier == "quick" else (2, 3)) for a, b in two]
+    parts += [{"n": 2, "kinds": [k], "multi": True} for k in ("self", "remove", "add", "replace")]
+    parts += [{"n": 2, "kinds": [k], "other_model": True} for k in ("self", "remove", "replace")]
+    if tier != "quick":
+        parts += [{"n": 3, "kinds": [a, b], "multi": True} for a, b in two] + [{"n": 3, "kinds": [a, b], "other_model": True} for a, b in two]
 
     def lab(p):
         ks = p["kinds"]
